@@ -1,0 +1,122 @@
+//! Verification hooks for the shutdown machinery, only compiled with `--cfg pavex_verif`:
+//! a process-wide, totally ordered event log (written by the acceptor, the workers and the test
+//! harness) and named delay points that stall the caller according to a plan installed by the
+//! harness. Nothing happens at a delay point unless the plan mentions it.
+use std::sync::{Mutex, MutexGuard, OnceLock};
+use std::time::{Duration, Instant};
+
+/// `seq`: position in the total order; `t_us`: time since the log was first used.
+#[derive(Debug, Clone)]
+pub struct Event {
+    pub seq: u64,
+    pub t_us: u64,
+    pub kind: &'static str,
+    pub who: u64,
+    pub arg: u64,
+}
+
+/// Stall the `nth` (0-based) arrival of `who` at `point` for `micros` microseconds. `block`: the
+/// whole thread sleeps (as if pre-empted); otherwise, at async delay points, only the calling task
+/// sleeps (`micros == 0`: it yields to the executor once).
+#[derive(Debug, Clone)]
+pub struct Delay {
+    pub point: &'static str,
+    pub who: u64,
+    pub nth: u64,
+    pub block: bool,
+    pub micros: u64,
+}
+
+#[derive(Default)]
+struct State {
+    next_seq: u64,
+    events: Vec<Event>,
+    plan: Vec<Delay>,
+    arrivals: Vec<(&'static str, u64, u64)>,
+}
+
+fn state() -> MutexGuard<'static, State> {
+    static STATE: OnceLock<Mutex<State>> = OnceLock::new();
+    let m = STATE.get_or_init(Default::default);
+    m.lock().unwrap_or_else(|poisoned| poisoned.into_inner())
+}
+
+fn push(s: &mut State, kind: &'static str, who: u64, arg: u64) -> u64 {
+    static EPOCH: OnceLock<Instant> = OnceLock::new();
+    let t_us = EPOCH.get_or_init(Instant::now).elapsed().as_micros() as u64;
+    s.next_seq += 1;
+    let seq = s.next_seq;
+    s.events.push(Event {
+        seq,
+        t_us,
+        kind,
+        who,
+        arg,
+    });
+    seq
+}
+
+/// Anything the call sites want to log as a number.
+pub trait Num {
+    fn num(self) -> u64;
+}
+macro_rules! num { ($($t:ty),*) => { $(impl Num for $t { fn num(self) -> u64 { self as u64 } })* } }
+num!(bool, u16, u64, u128, usize);
+
+/// Append an event to the log and return its sequence number (they start at 1).
+pub fn event(kind: &'static str, who: impl Num, arg: impl Num) -> u64 {
+    push(&mut state(), kind, who.num(), arg.num())
+}
+
+/// Remove and return everything logged so far (sequence numbers keep growing).
+pub fn take_events() -> Vec<Event> {
+    std::mem::take(&mut state().events)
+}
+
+/// Install a new delay plan and forget the arrival counts of the previous one.
+pub fn install_plan(plan: Vec<Delay>) {
+    let mut s = state();
+    s.plan = plan;
+    s.arrivals.clear();
+}
+
+/// Count the arrival; if the plan delays it, log that (`kind` = name of the point, `arg` = µs).
+fn arrive(point: &'static str, who: u64) -> Option<Delay> {
+    let mut s = state();
+    if s.plan.is_empty() {
+        return None;
+    }
+    let i = match s.arrivals.iter().position(|a| a.0 == point && a.1 == who) {
+        Some(i) => i,
+        None => {
+            s.arrivals.push((point, who, 0));
+            s.arrivals.len() - 1
+        }
+    };
+    let nth = s.arrivals[i].2;
+    s.arrivals[i].2 += 1;
+    let d = s
+        .plan
+        .iter()
+        .find(|d| d.point == point && d.who == who && d.nth == nth)?
+        .clone();
+    push(&mut s, point, who, d.micros);
+    Some(d)
+}
+
+/// A delay point in synchronous code: the only possible delay is to stall the thread.
+pub fn point(point: &'static str, who: impl Num) {
+    if let Some(d) = arrive(point, who.num()) {
+        std::thread::sleep(Duration::from_micros(d.micros));
+    }
+}
+
+/// A delay point at an existing suspension point of an async function.
+pub async fn point_async(point: &'static str, who: impl Num) {
+    match arrive(point, who.num()) {
+        Some(d) if d.block => std::thread::sleep(Duration::from_micros(d.micros)),
+        Some(d) if d.micros == 0 => tokio::task::yield_now().await,
+        Some(d) => tokio::time::sleep(Duration::from_micros(d.micros)).await,
+        None => {}
+    }
+}
